@@ -752,3 +752,56 @@ func extractCreds(p *pkgs, out string) {
 	}
 	must(l.finish(out))
 }
+
+// ---------------------------------------------------------------------------
+// intercept.go
+
+func extractIntercept(p *pkgs, out string) {
+	l := newLean("Intercept.lean", "intercept.go: how the cc argument of client interceptors is obtained; nil checks of the decorators")
+	for _, fn := range []struct{ goName, lean string }{{"Invoke", "unaryCCUsesUnwrap"}, {"NewStream", "streamCCUsesUnwrap"}} {
+		_, fd := p.methodDecl(mod, "interceptedChannel", fn.goName)
+		if fd == nil {
+			fail("intercept.go", fn.lean, "interceptedChannel.%s not found", fn.goName)
+			continue
+		}
+		found, uses := false, false
+		ast.Inspect(fd, func(n ast.Node) bool {
+			ta, ok := n.(*ast.TypeAssertExpr)
+			if !ok {
+				return true
+			}
+			found = true
+			if call, ok := ta.X.(*ast.CallExpr); ok {
+				if id, ok := call.Fun.(*ast.Ident); ok && id.Name == "unwrap" {
+					uses = true
+				}
+			}
+			return true
+		})
+		if !found {
+			fail("intercept.go", fn.lean, "no type assertion to *grpc.ClientConn in %s", fn.goName)
+			continue
+		}
+		l.printf("def %s : Bool := %v\n", fn.lean, uses)
+	}
+	// the "both nil => return the original" conditions
+	for _, fn := range []struct{ goName, lean string }{{"InterceptClientConn", "clientIdentityCond"}, {"InterceptServer", "serverIdentityCond"}, {"WithInterceptor", "registryIdentityCond"}} {
+		_, fd := p.funcDecl(mod, fn.goName)
+		if fd == nil || len(fd.Body.List) == 0 {
+			fail("intercept.go", fn.lean, "%s not found", fn.goName)
+			continue
+		}
+		ifs, ok := fd.Body.List[0].(*ast.IfStmt)
+		if !ok {
+			fail("intercept.go", fn.lean, "%s does not start with an if", fn.goName)
+			continue
+		}
+		be, ok := ifs.Cond.(*ast.BinaryExpr)
+		if !ok {
+			fail("intercept.go", fn.lean, "unexpected condition")
+			continue
+		}
+		l.printf("def %s : String := %s\n", fn.lean, leanStr(be.Op.String()))
+	}
+	must(l.finish(out))
+}
